@@ -3,9 +3,10 @@
  * "Return 1 if @mem is zeroed memory, otherwise return 0":
  *   requires: mem[0..len) readable
  *   returns 0 or 1;
- *   returns 1  =>  every byte of mem[0..len) is 0           (stated for the ONE ghost byte address verif_p1)
- *   returns 0  =>  some byte of mem[0..len) is not 0        (its address is published in the ghost verif_p2)
- *   writes nothing but the ghost verif_p2.
+ *   returns 1  =>  every byte of mem[0..len) is 0      (stated for ONE ghost byte: the byte at object offset
+ *                                                        verif_g3, if it lies in mem[0..len))
+ *   returns 0  =>  some byte of mem[0..len) is not 0   (its object offset is published in the ghost verif_g4)
+ *   writes nothing but the ghost verif_g4.
  * ENFORCED on the real function by unit bitmap_ba/mem_is_zero; the callers' units (ba_test_clear_bmap_extent ...)
  * REPLACE the call by this same contract.  Include after verif.h, before the real file.
  */
@@ -13,15 +14,16 @@
 #define C16_BA_MEM_IS_ZERO_H
 #include <stddef.h>
 #ifndef VERIF_NATIVE
-extern const unsigned char *verif_p1;	/* ghost: one arbitrary byte address, chosen by the harness */
-extern const unsigned char *verif_p2;	/* ghost: witness (address of a non-zero byte) when the answer is 0 */
-#define C16_IN_BYTES(p, mem, len) (__CPROVER_same_object((p), (mem)) && (p) >= (const unsigned char *)(mem) && \
-				   (p) < (const unsigned char *)(mem) + (len))
+extern unsigned long long verif_g3;	/* ghost: object offset of one arbitrary byte, chosen by the harness */
+extern unsigned long long verif_g4;	/* ghost: object offset of a non-zero byte (witness) when the answer is 0 */
+#define C16_OFF(p) ((unsigned long long)__CPROVER_POINTER_OFFSET(p))
+/* index into mem[] of the byte at object offset g (huge if the byte lies before mem) */
+#define C16_IDX(g, mem) ((size_t)((g) - C16_OFF(mem)))
 #endif
 int ext2fs_mem_is_zero(const char *mem, size_t len)
 	REQUIRES(len == 0 || __CPROVER_r_ok(mem, len))
 	ENSURES(RET == 0 || RET == 1)
-	ENSURES(RET == 0 || !C16_IN_BYTES(verif_p1, mem, len) || *verif_p1 == 0)
-	ENSURES(RET == 1 || (C16_IN_BYTES(verif_p2, mem, len) && *verif_p2 != 0))
-	ASSIGNS(verif_p2);
+	ENSURES(RET == 0 || !(C16_IDX(verif_g3, mem) < len) || mem[C16_IDX(verif_g3, mem)] == 0)
+	ENSURES(RET == 1 || (C16_IDX(verif_g4, mem) < len && mem[C16_IDX(verif_g4, mem)] != 0))
+	ASSIGNS(verif_g4);
 #endif
